@@ -1,12 +1,9 @@
 import Percival.Driver.Loop
-import Percival.Model.Http
-import Percival.Model.HttpRes
-import Percival.Model.HttpRequest
-import Percival.Spec.HttpResp
-/-! `pmodel http`: line protocol for http/http.c (C08/C09).  Driver code: the concrete buffered reader
-    (netbuf_read.c's buffer geometry + the scripted segments) is the `oracle` handed to `Model.Http.run`. -/
+import Percival.Model.HttpStep
+/-! `pmodel http`: line protocol for http/http.c (C08/C09).  Thin by construction: `parse`,
+    `Model.HttpStep.stepOp`, `render`. -/
 namespace Percival.Driver.Http
-open Percival.Model Percival.Driver
+open Percival.Model Percival.Driver Percival.Model.HttpStep
 
 abbrev Bytes := List UInt8
 
@@ -36,114 +33,6 @@ def showBody (b : Bytes) : String :=
   let n := b.length
   if n ≤ 64 then hex b else s!"{n}:{(fnv1a b).toNat}"
 
-inductive SegSpec where
-  | whole
-  | sizes (l : Array Nat)
-
-structure Cfg where
-  chunks : List Bytes := []          -- server stream, reversed list of pieces
-  seg : SegSpec := .whole
-  endReset : Bool := false
-  req : HttpRequest.Request := { method := [71, 69, 84], path := [47], headers := [], body := [] }
-  limit : Nat := 1048576
-  conn : Nat := 0
-  sndfail : Option Nat := none
-  cancel : Option Nat := none
-  /-- cancel after the j-th `recv()` call returned (between two segments) -/
-  cancelRecv : Option Nat := none
-  early : Bool := false
-  /-- the response as a value (well-formed generator): blocks in reverse order, then the whole value -/
-  wfBlocks : List Spec.HttpResp.Block := []
-  wf : Option Spec.HttpResp.Resp := none
-
-/-- the buffered reader + the scripted network -/
-structure Reader where
-  cap : Nat
-  bufpos : Nat := 0
-  datalen : Nat := 0
-  remaining : Nat            -- bytes of the stream not yet received
-  seg : SegSpec
-  idx : Nat := 0             -- next entry of the segment list
-  curseg : Nat := 0          -- what is left of the current segment
-  endReset : Bool
-  -- the rest of the environment (`Model.HttpRes.Turn`): the caller and the writer
-  nq : Nat := 0              -- waits answered so far
-  nrecv : Nat := 0           -- recv() calls so far
-  cancelWait : Option Nat := none   -- cancel right after the k-th `netbuf_read_wait` (k ≥ 1)
-  cancelRecv : Option Nat := none   -- cancel after the event-loop callback which made the j-th recv() call
-  failWrote : Option Nat := none    -- send() fails after this many request buffers were written completely
-
-/-- one `recv(space)`: none = EAGAIN, some 0 = EOF/err marker handled by caller -/
-def recvOne (r : Reader) (space : Nat) : Reader × Option Nat :=
-  let r := { r with nrecv := r.nrecv + 1 }
-  if r.remaining == 0 then (r, some 0) else
-  match r.seg with
-  | .whole =>
-    let n := min space r.remaining
-    ({ r with remaining := r.remaining - n }, some n)
-  | .sizes l =>
-    if r.curseg == 0 then
-      let s := l[r.idx % l.size]!
-      let r := { r with idx := r.idx + 1 }
-      if s == 0 then (r, none) else
-      let n := min (min s space) r.remaining
-      ({ r with curseg := s - n, remaining := r.remaining - n }, some n)
-    else
-      let n := min (min r.curseg space) r.remaining
-      ({ r with curseg := r.curseg - n, remaining := r.remaining - n }, some n)
-
-/-- the j-th recv() call has been made: the harness cancels when the event-loop callback which made it returns -/
-def armed (r : Reader) : Bool :=
-  match r.cancelRecv with
-  | some j => r.nrecv ≥ j
-  | none => false
-
-/-- keep receiving until `k` bytes are buffered (fuel: every non-EAGAIN recv makes progress);
-    `none` = the caller cancels while this wait is still pending -/
-def fill (k : Nat) : Nat → Reader → Reader × Option Http.Arrival
-  | 0, r => (r, some .err)
-  | f + 1, r =>
-    if r.datalen - r.bufpos ≥ k then (r, some (.more (r.datalen - r.bufpos - k))) else
-    if armed r then (r, none) else
-    match recvOne r (r.cap - r.datalen) with
-    | (r', none) => fill k f r'
-    | (r', some 0) => (r', some (if r.endReset then .err else .eof))
-    | (r', some n) => fill k f { r' with datalen := r'.datalen + n }
-
-def readerWait (r : Reader) (c k : Nat) : Reader × Option Http.Arrival :=
-  let r := { r with bufpos := r.bufpos + c }
-  if r.datalen - r.bufpos ≥ k then (r, some (.more (r.datalen - r.bufpos - k))) else
-  -- resize
-  let r := if r.cap < k then
-      { r with cap := max (r.cap * 2) k, datalen := r.datalen - r.bufpos, bufpos := 0 } else r
-  -- compact
-  let r := if r.cap - r.bufpos < k then { r with datalen := r.datalen - r.bufpos, bufpos := 0 } else r
-  fill k (2 * (r.remaining + k) + 1000000) r
-
-/-- the whole environment of one pending wait.  The scripted peer accepts the request before it answers
-    (unless `early`), so both request buffers are written while the first wait is pending. -/
-def readerTurn (r : Reader) (c k : Nat) : Reader × HttpRes.Turn :=
-  let q := r.nq
-  let r := { r with nq := q + 1 }
-  let cancelNow : HttpRes.Turn := { wrote := 0, cancel := true, arrival := .err }
-  if r.cancelWait == some (q + 1) then (r, cancelNow) else
-  match (if q == 0 then r.failWrote else none) with
-  | some w => (r, { wrote := w, wfail := true, arrival := .err })
-  | none =>
-  let wrote := if q == 0 then 2 else 0
-  if armed r then (r, { cancelNow with wrote := wrote }) else
-  match readerWait r c k with
-  | (r', none) => (r', { cancelNow with wrote := wrote })
-  | (r', some a) => (r', { wrote := wrote, arrival := a })
-
-def glibcOvf (neg : Bool) (mag : Nat) : Int :=
-  -- strtol clamps to long, the store truncates to int
-  let v : Int := if neg then - (mag : Int) else (mag : Int)
-  let lmax : Int := 9223372036854775807
-  let c : Int := if v > lmax then lmax else if v < -lmax - 1 then -lmax - 1 else v
-  let m := c % 4294967296
-  if m ≥ 2147483648 then m - 4294967296 else m
-
 def showHdrs (hs : List (Bytes × Bytes)) : String :=
   if hs.isEmpty then "-" else ",".intercalate (hs.map fun h => hex h.1 ++ ":" ++ hex h.2)
 
@@ -157,33 +46,6 @@ def showResp : Option Http.Resp → String
 
 def showWaits (ws : List Nat) : String :=
   if ws.isEmpty then "-" else ",".intercalate (ws.map toString)
-
-def allZero (l : Array Nat) : Bool := l.all (· == 0)
-
-def segOf (c : Cfg) : SegSpec :=
-  match c.seg with
-  | .sizes l => if l.isEmpty || allZero l then .whole else .sizes l
-  | .whole => .whole
-
-/-- does the response satisfy what C08 promises about any response handed to the caller? -/
-def rangeOk (limit : Nat) : Option Http.Resp → Bool
-  | none => true
-  | some r => decide (100 ≤ r.status) && decide (r.status ≤ 599) &&
-      (match r.body with
-       | none => true
-       | some b => b.length ≤ limit)
-
-/-- when the response came as a value: is the model's decoding exactly that value? -/
-def specAgrees (c : Cfg) (got : Option Http.Resp) : Bool :=
-  match c.wf with
-  | none => true
-  | some r =>
-    let ishead := HttpRequest.isHead c.req
-    let body := Spec.HttpResp.expectedBody r ishead
-    if body.length > c.limit then true else
-    match got with
-    | some g => g.status == (r.final.status : Int) && g.headers == Spec.HttpResp.expectedHeaders r && g.body == some body
-    | none => false
 
 /-- run-length encoding of a list of tokens: `x*n` for `n > 1` consecutive copies -/
 def rle : List String → String
@@ -200,44 +62,6 @@ def rle : List String → String
     scripted, so only `http.c`'s own blocks are compared -/
 def showTrace (early : Bool) (tr : List HttpRes.Snap) : String :=
   rle (tr.map fun s => if early then s!"{s.own}/*/*" else s!"{s.own}/{s.total}/{s.regs}")
-
-def runCase (c : Cfg) (generic : Bool) : String :=
-  match HttpRequest.serializeRequest c.req with
-  | none => "abort request-length-assert"
-  | some reqb =>
-  let fin (cb : Nat) (res : String) (sent : String) (rok : Bool) (r : HttpRes.RSt) (tr : List HttpRes.Snap) : String :=
-    let tail := s!"live={r.total} fds={r.fds} regs={r.regs}"
-    if generic then s!"cb={cb} range={if rok then "ok" else "bad"} sent={sent} {tail}"
-    else s!"cb={cb} {res} sent={sent} {tail} | waits={showWaits (tr.map (·.k))} res={showTrace c.early tr}"
-  let headLen := HttpRequest.headLen c.req
-  let failAt : Option Nat := match c.sndfail with
-    | some n => if !c.early && n < reqb.length then some n else none
-    | none => none
-  let data := c.chunks.reverse.flatten
-  let rd : Reader := { cap := Gen.Http.READER_BUF, remaining := data.length, seg := segOf c, endReset := c.endReset,
-                       cancelWait := c.cancel, cancelRecv := c.cancelRecv,
-                       failWrote := failAt.map fun n => if !c.req.body.isEmpty && n ≥ headLen then 1 else 0 }
-  let pre : HttpRes.Pre := if c.cancel == some 0 then .cancel else if c.conn ≥ 2 then .refused else .connected
-  let sentAll := if c.early then "*" else hex reqb
-  match HttpRes.runAllR glibcOvf readerTurn rd (HttpRequest.isHead c.req) c.limit data (!c.req.body.isEmpty) pre with
-  | .abort why tr => s!"abort {why} | waits={showWaits (tr.map (·.k))}"
-  | .ended cbs cancelled r tr =>
-    match r.err with
-    | some e => s!"abort resource-fault: {e} | waits={showWaits (tr.map (·.k))}"
-    | none =>
-    if cancelled then
-      -- nothing was sent yet when the caller cancels right after http_request() or right after the first wait
-      fin cbs.length "none" (if c.early then "*" else if c.cancel == some 0 || c.cancel == some 1 then "-" else sentAll) true r tr
-    else
-    match cbs with
-    | [resp] =>
-      let sent := if c.early then "*" else match pre, failAt with
-        | .refused, _ => "-"
-        | _, some n => hex (reqb.take n)
-        | _, none => sentAll
-      if !(specAgrees c resp) then s!"spec-mismatch model-decoded: {showResp resp}" else
-      fin 1 (showResp resp) sent (rangeOk c.limit resp) r tr
-    | _ => s!"abort model: {cbs.length} callbacks"
 
 def parseNats (s : String) : Array Nat :=
   ((s.splitOn ",").filterMap (·.toNat?)).toArray
@@ -275,92 +99,99 @@ def parsePieces (s : String) : Option Bytes :=
       | _, _ => none
     | _ => none).map List.flatten
 
-/-- `size:exthex,…` applied to the body -/
-def splitChunks : List String → Bytes → Option (List (Bytes × Bytes))
-  | [], _ => some []
-  | t :: ts, body =>
-    match t.splitOn ":" with
-    | [n, e] =>
-      match n.toNat?, unhex e with
-      | some n, some e => (splitChunks ts (body.drop n)).map fun rest => (body.take n, e) :: rest
-      | _, _ => none
-    | _ => none
-
-def mkWf (c : Cfg) (f : Spec.HttpResp.Framing) : Cfg × String :=
-  match c.wfBlocks with
-  | [] => (c, "ok")
-  | final :: interimRev =>
-    let r : Spec.HttpResp.Resp := { interim := interimRev.reverse, final := final, framing := f }
-    let wire := Spec.HttpResp.serialize r (HttpRequest.isHead c.req)
-    if wire == c.chunks.reverse.flatten then ({ c with wf := some r }, "ok")
-    else
-      -- reported in the lock-step part (a broken tie between generator and Spec, not a verdict on the code);
-      -- the value is dropped, so that shrinking a failing case cannot turn it into this complaint
-      ({ c with wf := none }, "ok | bad-serialisation: Spec.serialize differs from the generated stream")
-
 def optNat (s : String) : Option (Option Nat) :=
   if s = "-" then some none else s.toNat?.map some
 
-def step (c : Cfg) (toks : List String) : Cfg × String :=
-  match toks with
-  | "tag" :: _ => (c, "ok")
-  | ["srv", h] =>
-    match unhex h with
-    | some b => ({ c with chunks := b :: c.chunks }, "ok")
-    | none => (c, "bad-op")
+
+/-- `size:exthex,…` -/
+def parseChunkSizes (s : String) : Option (List (Nat × Bytes)) :=
+  if s = "-" then some [] else
+  (s.splitOn ",").mapM fun (t : String) =>
+    match t.splitOn ":" with
+    | [n, e] =>
+      match n.toNat?, unhex e with
+      | some n, some e => some (n, e)
+      | _, _ => none
+    | _ => none
+
+/-- cancel: `-` | k (right after the k-th wait; 0: right after http_request) | r<j> (after the j-th recv()) -/
+def parseCancel (cn : String) : Option (Option Nat × Option Nat) :=
+  if cn.startsWith "r" then (cn.drop 1).toString.toNat?.map fun j => (none, some j)
+  else (optNat cn).map fun k => (k, none)
+
+def parse : List String → Option Op
+  | "tag" :: _ => some .tag
+  | ["srv", h] => (unhex h).map .srv
   | ["srvrep", h, n] =>
     match unhex h, n.toNat? with
-    | some b, some n => ({ c with chunks := (repeatRev b n []).reverse :: c.chunks }, "ok")
-    | _, _ => (c, "bad-op")
-  | ["seg", "whole"] => ({ c with seg := .whole }, "ok")
-  | ["seg", "bytewise"] => ({ c with seg := .sizes #[1] }, "ok")
-  | ["seg", l] => ({ c with seg := .sizes (parseNats l) }, "ok")
-  | ["end", "eof"] => ({ c with endReset := false }, "ok")
-  | ["end", "reset"] => ({ c with endReset := true }, "ok")
+    | some b, some n => some (.srv (repeatRev b n []).reverse)
+    | _, _ => none
+  | ["seg", "whole"] => some (.seg .whole)
+  | ["seg", "bytewise"] => some (.seg (.sizes #[1]))
+  | ["seg", l] => some (.seg (.sizes (parseNats l)))
+  | ["end", "eof"] => some (.endReset false)
+  | ["end", "reset"] => some (.endReset true)
   | "req" :: m :: p :: nh :: rest =>
     match unhex m, unhex p, nh.toNat? with
     | some m, some p, some nh =>
       match takeHdrs nh rest [] with
       | some (hs, [b, lim]) =>
         match unhex b, lim.toNat? with
-        | some b, some lim =>
-          ({ c with req := { method := m, path := p, headers := hs, body := b }, limit := lim }, "ok")
-        | _, _ => (c, "bad-op")
-      | _ => (c, "bad-op")
-    | _, _, _ => (c, "bad-op")
+        | some b, some lim => some (.req { method := m, path := p, headers := hs, body := b } lim)
+        | _, _ => none
+      | _ => none
+    | _, _, _ => none
   | ["opt", conn, _sndmax, sf, cn, early] =>
-    -- cancel: `-` | k (right after the k-th wait; 0: right after http_request) | r<j> (after the j-th recv())
-    let cn' : Option (Option Nat × Option Nat) :=
-      if cn.startsWith "r" then (cn.drop 1).toString.toNat?.map fun j => (none, some j)
-      else (optNat cn).map fun k => (k, none)
-    match conn.toNat?, optNat sf, cn' with
-    | some conn, some sf, some (cw, cr) =>
-      ({ c with conn := conn, sndfail := sf, cancel := cw, cancelRecv := cr, early := early == "1" }, "ok")
-    | _, _, _ => (c, "bad-op")
+    match conn.toNat?, optNat sf, parseCancel cn with
+    | some conn, some sf, some (cw, cr) => some (.opt conn sf cw cr (early == "1"))
+    | _, _, _ => none
   | ["wfb", minor, status, reason, hl] =>
     match minor.toNat?, status.toNat?, unhex reason, parseHdrList hl with
     | some minor, some status, some reason, some hs =>
-      ({ c with wfBlocks := { minor := minor, status := status, reason := reason, headers := hs } :: c.wfBlocks }, "ok")
-    | _, _, _, _ => (c, "bad-op")
-  | ["wff", "none"] => mkWf c (.close [])
-  | ["wff", "close", b] =>
-    match parsePieces b with
-    | some b => mkWf c (.close b)
-    | none => (c, "bad-op")
+      some (.wfb { minor := minor, status := status, reason := reason, headers := hs })
+    | _, _, _, _ => none
+  | ["wff", "none"] => some (.wff (.close []))
+  | ["wff", "close", b] => (parsePieces b).map fun b => .wff (.close b)
   | ["wff", "length", b, tail] =>
     match parsePieces b, unhex tail with
-    | some b, some tail => mkWf c (.length b tail)
-    | _, _ => (c, "bad-op")
+    | some b, some tail => some (.wff (.length b tail))
+    | _, _ => none
   | ["wff", "chunked", sizes, lastext, tail, b] =>
     match parsePieces b, unhex lastext, unhex tail with
-    | some b, some le, some tail =>
-      match splitChunks (if sizes = "-" then [] else sizes.splitOn ",") b with
-      | some cs => mkWf c (.chunked cs le tail)
-      | none => (c, "bad-op")
-    | _, _, _ => (c, "bad-op")
-  | ["run"] => (c, runCase c false)
-  | ["run", "g"] => (c, runCase c true)
-  | _ => (c, "bad-op")
+    | some b, some le, some tail => (parseChunkSizes sizes).map fun cs => .wffChunked cs le tail b
+    | _, _, _ => none
+  | ["run"] => some (.run false)
+  | ["run", "g"] => some (.run true)
+  | _ => none
+
+def showSent : Sent → String
+  | .star => "*"
+  | .bytes b => hex b
+
+def renderRun : RunOut → String
+  | .abortReq => "abort request-length-assert"
+  | .abort why ws => s!"abort {why} | waits={showWaits ws}"
+  | .fault e ws => s!"abort resource-fault: {e} | waits={showWaits ws}"
+  | .specMismatch resp => s!"spec-mismatch model-decoded: {showResp resp}"
+  | .badCallbacks n => s!"abort model: {n} callbacks"
+  | .fin generic early cb resp sent rok r tr =>
+    let res := match resp with
+      | none => "none"
+      | some x => showResp x
+    let tail := s!"live={r.total} fds={r.fds} regs={r.regs}"
+    if generic then s!"cb={cb} range={if rok then "ok" else "bad"} sent={showSent sent} {tail}"
+    else s!"cb={cb} {res} sent={showSent sent} {tail} | waits={showWaits (tr.map (·.k))} res={showTrace early tr}"
+
+def render : Out → String
+  | .ok => "ok"
+  -- reported in the lock-step part (a broken tie between generator and Spec, not a verdict on the code)
+  | .badSerialisation => "ok | bad-serialisation: Spec.serialize differs from the generated stream"
+  | .run o => renderRun o
+
+def step (c : Cfg) (toks : List String) : Cfg × String :=
+  match parse toks with
+  | some op => let (c', o) := stepOp c op; (c', render o)
+  | none => (c, "bad-op")
 
 def main (_args : List String) : IO UInt32 :=
   loop ({} : Cfg) step
